@@ -27,6 +27,52 @@ CHECKS = {
 }
 
 
+def generic_replay(path):
+    """Re-run a saved counterexample against the current tree.  R replays: facts/ + out/prog.dl + expected.txt;
+    K replays: the README carries the rebuild/run command line."""
+    import re
+    import subprocess
+    readme = os.path.join(path, "README")
+    if os.path.exists(readme):
+        log(open(readme).read())
+    prog = os.path.join(path, "out", "prog.dl")
+    if os.path.exists(prog) and os.path.isdir(os.path.join(path, "facts")):
+        common.ensure_souffle()
+        out = os.path.join(path, "rerun")
+        os.makedirs(out, exist_ok=True)
+        flags = []
+        m = re.search(r"^replay: souffle -w -F facts -D out (.*) out/prog.dl$", open(readme).read(), re.M) if os.path.exists(readme) else None
+        if m:
+            flags = m.group(1).split()
+        rc = subprocess.call([common.SOUFFLE, "-w", "-F", os.path.join(path, "facts"), "-D", out] + flags + [prog])
+        exp = os.path.join(path, "expected.txt")
+        bad = rc != 0
+        if os.path.exists(exp):
+            cur, want = None, {}
+            for line in open(exp):
+                line = line.rstrip("\n")
+                if line.endswith(":") and "\t" not in line:
+                    cur = line[:-1]
+                    want[cur] = set()
+                elif cur is not None and line != "":
+                    want[cur].add(line)
+            for rel, lines in want.items():
+                f = os.path.join(out, rel + ".csv")
+                got = set(l.rstrip("\n") for l in open(f) if l.strip()) if os.path.exists(f) else set()
+                if got != lines:
+                    bad = True
+                    log("relation %s differs: missing %s unexpected %s" % (rel, sorted(lines - got)[:5], sorted(got - lines)[:5]))
+        log("REPLAY: %s" % ("violation reproduced" if bad else "outputs match the expected least model on the current tree"))
+        return 1 if bad else 0
+    m = re.search(r"^rebuild: (.*)$", open(readme).read(), re.M) if os.path.exists(readme) else None
+    if m:
+        rc = subprocess.call(m.group(1), shell=True, cwd=path)
+        log("REPLAY: command exited with %d" % rc)
+        return 1 if rc != 0 else 0
+    log("REPLAY: nothing executable in %s (see README)" % path)
+    return 2
+
+
 def main():
     ap = argparse.ArgumentParser()
     ap.add_argument("pid")
@@ -46,7 +92,7 @@ def main():
     try:
         mod = importlib.import_module(CHECKS[pid])
         if args.replay:
-            sys.exit(mod.replay(args.replay))
+            sys.exit(getattr(mod, "replay", generic_replay)(args.replay))
         kw = {}
         if args.only:
             kw["only"] = args.only
